@@ -74,7 +74,7 @@ def c02(ctx):
     ctx.evaluations += summ["nodes"] + summ["attack_checks"]
     ctx.nontrivial += summ["long_lived_cache_hits"]
     ctx.extra.update({"nodes_queried": summ["nodes"], "long_lived_cache_hits": summ["long_lived_cache_hits"], "attack_map_checks": summ["attack_checks"], "queries_validated_by_tlc": summ["logged"]})
-    ctx.rule = ("one long-lived generator through a perft-shaped walk of the start position to ply 4 (contains 1.a4 h6 2.a5 b5 / 1.a4 b5 2.a5 h6), seed walks, random games with backtracking and searches; "
+    ctx.rule = ("one long-lived generator through a perft-shaped walk of the start position to ply 4 (contains 1.a4 h6 2.a5 b5 / 1.a4 b5 2.a5 h6), seed walks, walks that leave board.turn() alone as count_positions does (player passed explicitly; at each promotion the colour-flipped twin position is asked first), random games with backtracking and searches; "
                 "at every node its move list is compared with a capacity-1 generator whose hit counter did not move (else a brand-new one), attack maps of both colours at every node with a generator at most 2000 questions old (several 10^5 entries accumulate in the long-lived attack cache, so a narrowed key aliases) and with a brand-new generator on a sample; "
                 "all disagreements and a sample of agreements are validated by Trace_Gen. distinct_nontrivial = queries answered from the long-lived cache")
     ctx.assumptions += ["alarm = the property's own sentence (long-lived differs from brand-new); a generator that is wrong but consistent is C01's business"]
